@@ -36,6 +36,9 @@ type ParetoDistribution struct {
 /* -------------------------------------------------------------------------- */
 
 func NewParetoDistribution(lambda, kappa Scalar) (*ParetoDistribution, error) {
+  if math.IsNaN(lambda.GetFloat64()) || math.IsNaN(kappa.GetFloat64()) {
+    return nil, fmt.Errorf("invalid parameters")
+  }
   if lambda.GetFloat64() <= 0.0 {
     return nil, fmt.Errorf("invalid value for parameter lambda: %f", lambda.GetFloat64())
   }
